@@ -158,6 +158,14 @@ def stmts(depth, width, top=True):
                 for b1 in bodies[8:]:
                     for b2 in (("bare", ("expr", "b = 5;")), ("braced", [("expr", "b = 6;")])):
                         res.append(("ifelse", b1, b2))
+            # if / else-if / else chains ('else if' on one line): every combination of four body kinds in three arms,
+            # and two-arm chains without a final else
+            cb = [bodies[0], bodies[1]] + [b for b in bodies if b[0] == "braced" and len(b[1]) == 2][:1] + [bodies[-1]]
+            for b1 in cb:
+                for b2 in cb:
+                    res.append(("chain", [b1, b2]))
+                    for b3 in cb:
+                        res.append(("chain", [b1, b2, b3, "else"]))
             for b in bodies[:6]:
                 res.append(("forx", b))
             for x in sub[:4]:
@@ -206,6 +214,20 @@ def render(node, style="kr", ind=0, unit="    "):
             first[-1] = first[-1] + " " + second[0].strip()
             return first + second[1:]
         return first + second
+    if k == "chain":
+        arms = [b for b in node[1] if b != "else"]
+        heads = ["if (a)"] + ["else if (b)"] * (len(arms) - 1)
+        if node[1][-1] == "else":
+            heads[-1] = "else"
+        out = []
+        for h, b in zip(heads, arms):
+            part = head_body(h, b, style, ind, unit)
+            if out and style != "allman" and out[-1].strip() == "}":
+                out[-1] = out[-1] + " " + part[0].strip()
+                out += part[1:]
+            else:
+                out += part
+        return out
     if k == "do":
         lines = head_body("do", node[1], style, ind, unit)
         if node[1][0] == "braced" and style != "allman":
@@ -260,6 +282,12 @@ def render_one(node):
         return HEAD[k] + " " + body(node[1])
     if k == "ifelse":
         return "if (a) " + body(node[1]) + " else " + body(node[2])
+    if k == "chain":
+        arms = [b for b in node[1] if b != "else"]
+        heads = ["if (a)"] + ["else if (b)"] * (len(arms) - 1)
+        if node[1][-1] == "else":
+            heads[-1] = "else"
+        return " ".join(h + " " + body(b) for h, b in zip(heads, arms))
     if k == "do":
         return "do " + body(node[1]) + " while (a);"
     if k == "block":
